@@ -47,7 +47,12 @@ LStrip(s) == IF s # <<>> /\ Head(s) \in StripSet THEN LStrip(Tail(s)) ELSE s
 RECURSIVE RStrip(_)
 RStrip(s) == IF s # <<>> /\ s[Len(s)] \in StripSet THEN RStrip(SubSeq(s, 1, Len(s) - 1)) ELSE s
 
-SanVariants == {"code", "nostrip", "nosep", "nosplit", "rstriponly"}
+SanVariants == {"code", "nostrip", "nosep", "nosplit", "rstriponly", "trunc3", "trunc4"}
+
+\* "truncate to N after the strip" (a length limit bolted on behind the pipeline): the cut can expose a dot or
+\* underscore at the end, which the next application strips -- the output predicates still hold, idempotence
+\* does not.  (Truncating BEFORE the strip would be fine.)
+TruncLen(variant) == IF variant = "trunc3" THEN 3 ELSE IF variant = "trunc4" THEN 4 ELSE 0
 
 \* the pipeline on the NFKD text
 SanV(variant, nfkd) ==
@@ -57,6 +62,7 @@ SanV(variant, nfkd) ==
       d == IF variant = "nosep" \/ variant = "nosplit" THEN c ELSE KeepOnly(c)
   IN IF variant = "nostrip" THEN d
      ELSE IF variant = "rstriponly" THEN RStrip(d)
+     ELSE IF TruncLen(variant) > 0 THEN Take(RStrip(LStrip(d)), TruncLen(variant))
      ELSE RStrip(LStrip(d))
 San(nfkd) == SanV("code", nfkd)
 =============================================================================
